@@ -411,6 +411,20 @@ def check(ctx):
     ctx.ob("C14.R2", tr, "Var.transform dispatches to the class helper (class or default "
                          "bijector, with the bijector arguments) or the instance helper",
            ok_d, detail=str([short(t, 100) for t, _ in helpers]))
+    # the caller's positional arguments after the bijector ARE the bijector's: nothing in
+    # either entry point's signature may sit between `bijector` and `*args` (it would
+    # silently swallow the first bijector argument), nor steal a keyword
+    for efi, lead in ((tr, ["self", "bijector"]),
+                      (repo.func(f"{MODEL}.GraphBuilder.transform"), ["self", "var", "bijector"])):
+        a_ = efi.node.args
+        pos_ = [x.arg for x in a_.posonlyargs + a_.args]
+        ctx.ob("C14.R2", efi, f"signature ({', '.join(lead)}, *args, **kwargs): every further "
+                              f"positional or keyword argument of the call reaches the bijector",
+               pos_ == lead and a_.vararg is not None and a_.kwarg is not None
+               and not a_.kwonlyargs,
+               detail=f"parameters {pos_} *{getattr(a_.vararg, 'arg', None)} "
+                      f"kwonly={[x.arg for x in a_.kwonlyargs]} **{getattr(a_.kwarg, 'arg', None)}",
+               stmt=f"signature of {efi.name} {pos_} {[x.arg for x in a_.kwonlyargs]}")
     if ok_d:
         # which helper runs for which kind of bijector: path conditions evaluated for the
         # kinds {class with arguments, None with a default, instance without arguments}
@@ -503,6 +517,19 @@ def check(ctx):
         ctx.ob("C14.R3", bm, "every variable flagged auto_transform is transformed with its "
                              "distribution's default bijector (bijector=None)", ok,
                detail=short(t))
+
+        # ... and "every" means every variable of the graph, however deep: the candidates
+        # are the variables of the builder's recursive closure (whose completeness is
+        # C15.R2), not the added ones or their direct inputs
+        src = t[1][1][1] if t[1][1][0] == "iter" else None
+        deep = (src is not None and src[0] == "proj" and src[2] == 1
+                and src[1][0] == "call" and src[1][1][0] == "a"
+                and src[1][1][2] == "_all_nodes_and_vars" and not src[1][2]
+                and src[1][1][1] in (SELF, ("call", ("a", SELF, "copy"), (), ())))
+        ctx.ob("C14.R3", bm, "the auto-transform candidates are ALL variables of the graph "
+                             "(the recursive closure _all_nodes_and_vars()[1]), not only the "
+                             "added variables or their direct inputs", deep, unproven=True,
+               detail=short(src or t[1][1], 200), stmt="auto-transform candidates " + pretty(src or ())[:120])
 
     # ---- shared mechanisms: the neighbour's rules run as obligations of this property
     ctx.include("C01", "C14.R4", only=['C01.R8'])
